@@ -20,7 +20,7 @@ TARGETS = ['C13/Props.vo', 'C13/Corr.vo']
 MODEL_TARGETS = ['C13/Corr.vo']
 PROPS_FILE = 'C13/Props.v'
 PROPS_MODULE = 'QV.C13.Props'
-CORR_IMPORTS = ['QV.C13.Model', 'QV.C13.Spec', 'QV.C13.Corr']
+CORR_IMPORTS = ['QV.C13.Model', 'QV.C13.Pure', 'QV.C13.Spec', 'QV.C13.Corr']
 CHECK_CORR = 'check_corr'
 CHECK_SPEC = 'check_spec'
 SHARD = 200
